@@ -71,7 +71,7 @@ def tokenizeAux : Bytes → Bytes → Option (List Tok)
   | c :: t, acc =>
     if c == lbrace then
       let name := t.takeWhile fun x => x != lbrace && x != rbrace
-      match t.dropWhile fun x => x != lbrace && x != rbrace with
+      match hd : t.dropWhile fun x => x != lbrace && x != rbrace with
       | d :: rest =>
         if d == rbrace then
           (tokenizeAux rest []).map fun toks =>
@@ -82,13 +82,12 @@ def tokenizeAux : Bytes → Bytes → Option (List Tok)
     else tokenizeAux t (c :: acc)
 termination_by s => s.length
 decreasing_by
-  · rename_i h
-    have h1 : (t.dropWhile fun x => x != lbrace && x != rbrace).length ≤ t.length := by
-      clear h
+  · have h1 : (t.dropWhile fun x => x != lbrace && x != rbrace).length ≤ t.length := by
+      clear hd
       induction t with
       | nil => simp
       | cons a t ih => simp only [List.dropWhile]; split <;> simp <;> omega
-    rw [h] at h1
+    rw [hd] at h1
     simp only [List.length_cons] at h1 ⊢; omega
   · simp
 
@@ -186,7 +185,7 @@ def encValues (vs : Values) : String :=
 
 def run (ins outs : List String) : Verdict :=
   match ins, outs with
-  | ["P", joined, patPath, names, vals], [path] =>
+  | ["P", joined, patPath, names, vals, _, _], [path] =>
     match decField joined, decField patPath, decPairs names vals, decField path with
     | some j, some pp, some params, some p =>
       let slash : Bytes := if keepsSlash pp then [47] else []
